@@ -49,7 +49,18 @@ def freeze(world: World) -> dict:
                 for sub in node.body:
                     if isinstance(sub, (ast.FunctionDef, ast.AsyncFunctionDef)):
                         funcs.add(f'{module.name}.{node.name}.{sub.name}')
-    return {'functions': sorted(funcs), 'classes': sorted(classes)}
+    attrs = set()
+    for module in world.modules.values():
+        for node in ast.walk(module.tree):
+            if isinstance(node, (ast.Assign, ast.AnnAssign, ast.AugAssign)):
+                targets = node.targets if isinstance(node, ast.Assign) else [node.target]
+                for t in targets:
+                    for x in ast.walk(t):
+                        if isinstance(x, ast.Attribute) and isinstance(x.ctx, ast.Store):
+                            attrs.add(x.attr)
+                        elif isinstance(x, ast.Name) and isinstance(x.ctx, ast.Store) and isinstance(getattr(node, '_parent', None), (ast.Module, ast.ClassDef)):
+                            attrs.add(x.id)
+    return {'functions': sorted(funcs), 'classes': sorted(classes), 'attributes': sorted(attrs)}
 
 
 _KNOWN: dict | None = None
@@ -60,7 +71,7 @@ def load_known() -> dict:
     if _KNOWN is None:
         with open(KNOWN_FILE, encoding='utf-8') as f:
             data = json.load(f)
-        _KNOWN = {'functions': set(data['functions']), 'classes': set(data['classes'])}
+        _KNOWN = {'functions': set(data['functions']), 'classes': set(data['classes']), 'attributes': set(data.get('attributes', []))}
     return _KNOWN
 
 
